@@ -290,6 +290,11 @@ func (x *sess) apply(o op, m *model) (err error) {
 	switch o.Kind {
 	case "upd":
 		e := &stats.Entry{Client: o.Client, Domain: o.Domain, Result: stats.Result(o.Cat), ProcessingTime: 2 * time.Millisecond}
+		if o.Cat == 4 {
+			// Answered without measurable time (e.g. from a cache): the hour's
+			// average processing time may then be zero.
+			e.ProcessingTime = 0
+		}
 		if o.Ups {
 			e.UpstreamStats = []*proxy.UpstreamStatistics{
 				{Address: "1.1.1.1:53", QueryDuration: 3 * time.Millisecond},
